@@ -5,6 +5,25 @@ SS = "eolib.packet.sequence_start."
 
 @class_contract("eolib.packet.sequence_start.SequenceStart")
 class SequenceStart:
+    @staticmethod
+    def native_generate(rng, nat):
+        """bounded stand-in / replay side only: a start of one of the repo's kinds, built through the real
+        constructors, values at the ends of the ranges a peer can announce"""
+        from eolib.packet import sequence_start as M
+        k = rng.randrange(0, 5)
+        if k == 0:
+            return M.SequenceStart.zero()
+        if k == 1:
+            return M.AccountReplySequenceStart.from_value(rng.choice([0, 1, 239, 240, rng.randrange(0, 253)]))
+        if k == 2:
+            return M.InitSequenceStart.from_init_values(rng.choice([0, 1, 251, 252, rng.randrange(0, 253)]),
+                                                        rng.choice([0, 1, 13, 251, 252, rng.randrange(0, 253)]))
+        if k == 3:
+            return M.PingSequenceStart.from_ping_values(rng.choice([0, 1, 252, 253, 63990, 64000, 64007, 64008,
+                                                                    rng.randrange(0, 64009)]),
+                                                        rng.choice([0, 1, 251, 252, rng.randrange(0, 253)]))
+        return M.SimpleSequenceStart(rng.choice([0, 1, 9, 64000, 64008, rng.randrange(0, 70000)]))
+
     # `value` is an abstract pure observer of a sequence start (subclasses in the repo: verified)
     abstract_props = dict(value="int")
 
